@@ -17,13 +17,14 @@ pub fn plan() -> Plan {
         meta: Meta {
             property: "C09",
             level: "exploration",
-            rule: "differential: for each enumerated shape a header multiset is pushed into the real in-memory index (H3 probe); get_latest / get_all_with_deletion_marker / count are recorded for every present key and for absent keys below, between every adjacent pair and above; the index is dumped and the same queries are repeated on the B+tree file (must be identical tuples in identical order), after re-opening the file, and after loading it back into memory; answers are also compared with the harness' own expectation (ts desc, push order desc, cut after first marker) and the file is parsed independently (sorted leaves, hash, count). Shapes: key lengths {1,2,3,4,7,8,16,32,34,71,128,184,199,455,967,1000} (4096 mod header size = 0 for 7/71/199/455/967, = 1 for 8/34, = size-1 for 184) x key counts sweeping through every last-leaf remainder and 1..3+ inner levels x version runs of length {B-1,B,B+1,2B,7B} (B = headers per 4 KiB block) at first/middle/last key, random runs, timestamp ties, markers at top/middle/bottom; sequential and random keys. A shape is non-trivial when the tree has >=1 inner node or a run longer than one block; distinct = hash of the shape description.",
+            rule: "differential: for each enumerated shape a header multiset is pushed into the real in-memory index (H3 probe); get_latest / get_all_with_deletion_marker / count are recorded for every present key and for absent keys below, between every adjacent pair and above; the index is dumped and the same queries are repeated on the B+tree file (must be identical tuples in identical order), after re-opening the file, and after loading it back into memory; answers are also compared with the harness' own expectation (ts desc, push order desc, cut after first marker) and the file is parsed independently (sorted leaves, hash, count). Shapes: key lengths {1,2,3,4,7,8,16,32,34,71,128,184,199,455,967,1000} (leaf blocks: 4096 mod header size = 0 for 7/71/199/455/967, = 1 for 8/34, = size-1 for 184; inner nodes: a full node is exactly 4096 bytes for 196/264/332/400/502 and would be 4097..4104 bytes with one child too many for 48/65/138/284/503/576) x key counts sweeping through every last-leaf remainder and 1..3+ inner levels x version runs of length {B-1,B,B+1,2B,7B} (B = headers per 4 KiB block) at first/middle/last key, random runs, timestamp ties, markers at top/middle/bottom; sequential and random keys. A shape is non-trivial when the tree has >=1 inner node or a run longer than one block; distinct = hash of the shape description.",
             assumptions: vec!["the probe builds headers with the same layout arithmetic as the write path (blob_offset / checksum patching)", "verdict holds for the shapes enumerated for this seed"],
         },
         shards: 16,
         soft_s: (25, 600),
         exhaustive: None,
         min_evaluations: 100,
+        extra: None,
     }
 }
 
@@ -338,6 +339,17 @@ macro_rules! dispatch {
             32 => $f::<32>($($args),*).await,
             71 => $f::<71>($($args),*).await,
             34 => $f::<34>($($args),*).await,
+            48 => $f::<48>($($args),*).await,
+            65 => $f::<65>($($args),*).await,
+            138 => $f::<138>($($args),*).await,
+            196 => $f::<196>($($args),*).await,
+            264 => $f::<264>($($args),*).await,
+            284 => $f::<284>($($args),*).await,
+            332 => $f::<332>($($args),*).await,
+            400 => $f::<400>($($args),*).await,
+            502 => $f::<502>($($args),*).await,
+            503 => $f::<503>($($args),*).await,
+            576 => $f::<576>($($args),*).await,
             128 => $f::<128>($($args),*).await,
             184 => $f::<184>($($args),*).await,
             199 => $f::<199>($($args),*).await,
@@ -348,7 +360,7 @@ macro_rules! dispatch {
     };
 }
 
-pub const KEYLENS: [usize; 16] = [1, 2, 3, 4, 7, 8, 16, 32, 34, 71, 128, 184, 199, 455, 967, 1000];
+pub const KEYLENS: [usize; 27] = [1, 2, 3, 4, 7, 8, 16, 32, 34, 48, 65, 71, 128, 138, 184, 196, 199, 264, 284, 332, 400, 455, 502, 503, 576, 967, 1000];
 
 fn shapes_for(keylen: usize, thorough: bool, rng: &mut Rng) -> Vec<Shape> {
     let rhs = 57 + keylen;
@@ -460,9 +472,23 @@ pub fn shard(ctx: &Ctx) -> Shard {
     for l in KEYLENS {
         all.extend(shapes_for(l, ctx.thorough(), &mut gen_rng));
     }
-    // big shapes first so that the tail is balanced
-    let mut idx: Vec<usize> = (0..all.len()).collect();
-    idx.sort_by_key(|i| std::cmp::Reverse(all[*i].keys.iter().map(|k| k.len()).sum::<usize>()));
+    // cheap shapes first (breadth under a tight time budget), every tenth slot taken from the expensive end
+    let mut by_size: Vec<usize> = (0..all.len()).collect();
+    by_size.sort_by_key(|i| all[*i].keys.iter().map(|k| k.len()).sum::<usize>());
+    let mut idx: Vec<usize> = Vec::with_capacity(by_size.len());
+    let (mut lo, mut hi) = (0usize, by_size.len());
+    while lo < hi {
+        for _ in 0..9 {
+            if lo < hi {
+                idx.push(by_size[lo]);
+                lo += 1;
+            }
+        }
+        if lo < hi {
+            hi -= 1;
+            idx.push(by_size[hi]);
+        }
+    }
     let mut skipped = 0u64;
     for (n, i) in idx.iter().enumerate() {
         if n % ctx.shards != ctx.shard {
